@@ -57,7 +57,7 @@ def Statement_C08 : Prop :=
     let d := (recover (crashAt s 1 fresh w m)).1
     let fin := (committed s 1 fresh w).s
     (isBefore d.s s w = true ∨ isAfter d.s fin w = true)
-    ∧ loadable d.s (liveLids d.s fin w) = true
+    ∧ reachableOk d.s fin w = true
     ∧ d.s.tlog 1 = false ∧ d.plg = none
     ∧ usable d.s w = true
 
@@ -119,7 +119,7 @@ theorem witness1_good_points :
     ∀ m ∈ [0, 1, 2, 3, 4, 5, 6, 7, 8, 9, 10, 17, 18, 19, 20, 21],
       let d := (recover (crashAt s1 1 f1 w1 m)).1
       let fin := (committed s1 1 f1 w1).s
-      (isBefore d.s s1 w1 = true ∨ isAfter d.s fin w1 = true) ∧ loadable d.s (liveLids d.s fin w1) = true
+      (isBefore d.s s1 w1 = true ∨ isAfter d.s fin w1 = true) ∧ reachableOk d.s fin w1 = true
       ∧ d.s.tlog 1 = false ∧ d.plg = none ∧ usable d.s w1 = true := by decide
 
 /-! ## What holds in general -/
